@@ -100,6 +100,9 @@ def rows():
         ("load missing file [/tag]", good(load=["nofile", 3], set=["obj", [["I", ["i", "9"]]]])),
         ("save into missing directory [/tag]", good(save=["nofile", 4], set=["obj", [["I", ["i", "9"]]]])),
         ("set string with markup", good(set=["obj", [["S", ["s", "[/red] x [bold]"]], ["I", ["i", "9"]]]])),
+        ("set int to markup text", good(set=["obj", [["I", ["s", "[/foo]"]], ["MB", ["b", "y"]]]])),
+        ("set hex to markup text", good(set=["obj", [["H", ["s", "[bold]zz[/]"]], ["MB", ["b", "y"]]]])),
+        ("set float to markup text", good(set=["obj", [["F", ["s", "[/x]"]], ["MB", ["b", "y"]]]])),
         ("load missing file", good(load=["nofile", 0], set=["obj", [["I", ["i", "9"]]]])),
         ("load directory", good(load=["nofile", 1], set=["obj", [["I", ["i", "9"]]]])),
         ("save into missing directory", good(save=["nofile", 2], set=["obj", [["I", ["i", "9"]]]])),
@@ -113,6 +116,9 @@ def rows():
         ("save name with lone surrogate", good(save=["nofile", 6], set=["obj", [["I", ["i", "9"]]]])),
         ("load empty name", good(load=["nofile", 7], set=["obj", [["I", ["i", "9"]]]])),
         ("save empty name", good(save=["nofile", 7], set=["obj", [["I", ["i", "9"]]]])),
+        # JSON the decoder gives up on for other reasons than syntax: a number / a nesting depth Python refuses
+        ("huge integer literal", ["badjson", '{"version": 3, "set": {"I": ' + "1" * 5000 + "}}"]),
+        ("deeply nested arrays", ["badjson", "[" * 100000]),
         ("bad json", ["badjson", "{"]),
         ("bad json 2", ["badjson", "garbage"]),
         ("bad json 3", ["badjson", '{"version": 3, "set": {"I": 9}'])
@@ -120,6 +126,13 @@ def rows():
     for k in ("true", "null", "int", "str", "list", "emptystr", "float"):
         out.append(("line=%s" % k, ["nonobj", k]))
     return out
+
+
+def _is_obj(text):
+    try:
+        return isinstance(json.loads(text), dict)
+    except ValueError:
+        return False
 
 
 def concrete(line, paths, nofiles, rev_ids):
@@ -223,6 +236,38 @@ def main(run):
             if os.path.exists(os.path.join(d, "adir")):
                 os.unlink(os.path.join(d, "adir"))
             os.makedirs(os.path.join(d, "adir"))
+    # the same through the real process with its default verbosity (diagnostics are rendered as console markup
+    # then): rows whose text ends up in messages, and the lines the decoder refuses
+    import subprocess
+    import sys
+
+    from ..common import REPO
+
+    nsub = 0
+    for s_ in sessions:
+        if not any(x in s_["name"] for x in ("[", "markup", "huge integer", "deeply nested")) or " (twice)" in s_["name"] or " ; " in s_["name"]:
+            continue
+        kc.write_text(p1, f1)
+        if os.path.exists(pfinal):
+            os.unlink(pfinal)
+        env = dict(os.environ, PYTHONPATH=REPO)
+        env.pop("KCONFIG_REPORT_VERBOSITY", None)
+        pr = subprocess.run([sys.executable, "-m", "kconfserver", "--kconfig", kpath, "--config", p1], input="".join(c + "\n" for c in s_["conc"]), capture_output=True, text=True, env=env, cwd=d)
+        nsub += 1
+        outl = pr.stdout.splitlines()
+        ok_json = all(_is_obj(x) for x in outl)
+        saved = []
+        if os.path.exists(pfinal):
+            with open(pfinal) as f:
+                saved = [[n, v, dd] for n, v, dd in storecheck.parse_sdkconfig(f.read(), info)]
+        if pr.returncode != 0 or len(outl) != len(s_["conc"]) + 1 or not ok_json or saved != s_["obs"]["saved"]:
+            run.report(
+                "P-Alive (real process, default verbosity) in session '%s': exit status %d, %d stdout lines for %d requests%s; last diagnostics: %s"
+                % (s_["name"], pr.returncode, len(outl), len(s_["conc"]), "" if saved == s_["obs"]["saved"] else ", saved configuration differs from the quiet in-process run", pr.stderr.strip().splitlines()[-1][:160] if pr.stderr.strip() else ""),
+                {"kconfig": text, "session": s_["name"], "lines": [c[:300] for c in s_["conc"]], "stderr_tail": pr.stderr[-600:]},
+                {"P-Alive", "real-process", "row:" + s_["name"]},
+            )
+    run.cov["real_process_sessions"] = nsub
     run.add("evaluations", len(sessions))
     strings = set()
     ktree.strings_of(item["prog"], strings)
